@@ -14,6 +14,7 @@ import (
 	"strconv"
 	"strings"
 	"sync"
+	"sync/atomic"
 	"time"
 )
 
@@ -31,7 +32,9 @@ type Check struct {
 	// QuickBudget/ThoroughBudget: soft wall-clock budgets after which Expired() is true.
 	QuickBudget, ThoroughBudget time.Duration
 	Rule                        string
-	Assumptions                 []string
+	// Added: parts added after the seeded-change rounds (DESIGN.md 10.9), appended to the rule in the evidence
+	Added       string
+	Assumptions []string
 }
 
 var registry = map[string]*Check{}
@@ -70,6 +73,7 @@ type Env struct {
 	Deadline time.Time
 
 	caseNo int64
+	beat   int64 // heartbeat (see Expired)
 	res    WorkerResult
 	hashes map[uint64]struct{}
 	mark   *os.File
@@ -111,6 +115,8 @@ func (e *Env) CaseNo() int64 { return e.caseNo - 1 }
 // Expired reports whether the soft budget is used up (the run must then stop and
 // report exhaustive=false).
 func (e *Env) Expired() bool {
+	// polled between the executions of every exploration: a heartbeat for the watchdog
+	atomic.AddInt64(&e.beat, 1)
 	if e.Deadline.IsZero() {
 		return false
 	}
@@ -121,7 +127,10 @@ func (e *Env) Expired() bool {
 	return false
 }
 
-func (e *Env) Capped()                { e.res.Capped = true }
+func (e *Env) Capped() { e.res.Capped = true }
+
+// Beat tells the watchdog that the worker is alive (long waits on subprocesses).
+func (e *Env) Beat()                  { atomic.AddInt64(&e.beat, 1) }
 func (e *Env) Count(name string)      { e.res.Counters[name]++ }
 func (e *Env) Add(name string, n int) { e.res.Counters[name] += int64(n) }
 func (e *Env) Note(format string, a ...any) {
@@ -311,15 +320,15 @@ func runWorker(id string, args []string) int {
 	// watchdog: no progress for a long time => report the case being executed
 	done := make(chan struct{})
 	go func() {
-		last, lastT := int64(-1), time.Now()
+		last, lastBeat, lastT := int64(-1), int64(-1), time.Now()
 		for {
 			select {
 			case <-done:
 				return
 			case <-time.After(2 * time.Second):
 			}
-			if e.caseNo != last {
-				last, lastT = e.caseNo, time.Now()
+			if b := atomic.LoadInt64(&e.beat); e.caseNo != last || b != lastBeat {
+				last, lastBeat, lastT = e.caseNo, b, time.Now()
 			} else if time.Since(lastT) > 300*time.Second {
 				fmt.Fprintf(os.Stderr, "WATCHDOG worker %d stuck at case %d\n", shard, last)
 				os.Exit(3)
@@ -586,6 +595,9 @@ func writeEvidence(c *Check, tier string, seed int64, t *WorkerResult, distinct,
 		cov["distinct_nontrivial"] = distinct
 	}
 	cov["rule"] = c.Rule
+	if c.Added != "" {
+		cov["rule"] = c.Rule + " ADDED LATER: " + c.Added
+	}
 	samples := t.Samples
 	if len(samples) == 0 {
 		samples = []any{"(no sample recorded)"}
